@@ -643,9 +643,45 @@ func runVF14(p *Prog, r *RuleRun) {
 	// before this Open creates any file (a file created after the listing can never be a sweep candidate;
 	// one created before it would be listed without being known to the persisted metadata)
 	spec := v.baseSpec("sweep-order")
+	baseValue := spec.Value
+	spec.Value = func(cx *Ctx, val ssa.Value, f *Fact) (AV, bool) {
+		// the directory listing keeps its identity wherever it is passed (a helper that loads the segments)
+		if c, ok := val.(*ssa.Call); ok && isList(c) {
+			a := cx.Eval(val, f)
+			t := AV{K: avTuple, Tup: make([]AV, 2)}
+			if a.K == avTuple {
+				copy(t.Tup, a.Tup)
+			}
+			t.Tup[0].Tag = "~listing"
+			return t, true
+		}
+		return baseValue(cx, val, f)
+	}
+	baseCall := spec.Call
+	nUnlist := 0
+	spec.Call = func(cx *Ctx, ci ssa.CallInstruction) CallInfo {
+		if isBuiltinCall(ci, "delete") && cx.F != nil && len(ci.Common().Args) == 2 &&
+			cx.Eval(ci.Common().Args[0], cx.F).Tag == "~listing" && fieldLoadName(ci.Common().Args[1]) == "ID" {
+			nUnlist++
+			cx.F.TS["unl"] = "1" // this segment is taken off the list of sweep candidates
+			return CallInfo{}
+		}
+		return baseCall(cx, ci)
+	}
+	engineKeep := 0
 	spec.OnEvent = func(cx *Ctx, ev, phase string, ins ssa.Instruction, f *Fact) {
 		if phase != "call" {
 			return
+		}
+		switch ev {
+		case "SegmentFiler.Open", "SegmentFiler.RecoverTail":
+			engineKeep++
+			if f.TS["unl"] == "1" {
+				r.OK(cx.Key(ins, "unlist-before-keep"), posOf(p, ins), "the segment is taken off the sweep candidates before it is opened/recovered")
+			} else if nUnlist > 0 {
+				r.Fail(cx.Key(ins, "unlist-before-keep"), posOf(p, ins), "a persisted segment is opened/recovered on a path that did not take it off the list of sweep candidates first: Open would then delete a live segment file; path: "+trace(f))
+			}
+			delete(f.TS, "unl")
 		}
 		switch ev {
 		case "SegmentFiler.Delete":
@@ -705,6 +741,10 @@ func runVF14(p *Prog, r *RuleRun) {
 				}
 			}
 		}
+	}
+	if nUnlist > 0 && engineKeep >= 2 {
+		// form A was followed path-sensitively by the engine above (also through helpers of Open)
+		return
 	}
 	if len(excl) == 0 {
 		r.Fail("wal.Open:unlist", pos, "Open never excludes the segments metadata names from the set of files it sweeps: the sweep would delete live segment files")
@@ -850,7 +890,10 @@ func onlyDeferred(p *Prog, fn *ssa.Function) bool {
 					continue
 				}
 				if _, isDefer := ci.(*ssa.Defer); !isDefer {
-					return false
+					// or a plain call from inside a deferred closure / another only-deferred function
+					if !(caller.Parent() != nil && isDeferredClosure(caller)) {
+						return false
+					}
 				}
 				n++
 			}
